@@ -32,6 +32,7 @@ def gen_world(rng, pk):
     for a in abss:
         if rng.random() < 0.45:
             children.insert(rng.randint(0, len(children)), F.SectD(a, "fx" + a, False, False, None))
+    children.append(F.KeyD("plain", "string"))      # a top-level key for command-line overrides that touch nothing else
     sd = F.SchemaD(children, types)
     pkgs = []
     npk = rng.randint(0, 2)
@@ -174,19 +175,23 @@ def run(ctx):
             mp = [pkggen.model_pkg(e[0], e[1], elab) for e in pkgs] + \
                  [[bad["nocomp"], core.sexp.Atom("nocomponent")], [bad["module"], core.sexp.Atom("notpackage")],
                   [bad["missing"], core.sexp.Atom("notimportable")], ["a..b", core.sexp.Atom("illegalname")], [".x", core.sexp.Atom("illegalname")]]
-            slots = [(c.name if c.name not in ("*", "+", None) else None, c.type) for c in sd.children]
+            slots = [(c.name if c.name not in ("*", "+", None) else None, c.type) for c in sd.children if c.kind == "sect"]
             fixed = [f for f, _ in slots if f]
             texts = [gen_text(rng, abss, con, impl, pkgs, bad, fixed) for _ in range(12)]
+            # some loads carry a command-line override for the unrelated top-level key: slot admission must not change
+            ovs = [(("plain=ov",) if rng.random() < 0.3 else ()) for _ in texts]
             if ctx.driver_ok and not nested:
-                ans = core.driver_batch([cfgrun.model_load_request(elab, t, cfgstream.URL, pkgs=mp) for t in texts])
+                ans = core.driver_batch([cfgrun.model_load_request(elab, t, cfgstream.URL, overrides=o, pkgs=mp) for t, o in zip(texts, ovs)])
             else:
                 ans = [None] * len(texts)
             before = cfgrun.subtypes_table(real)
             history = []
-            for t, a in zip(texts, ans):
+            for t, a, ov in zip(texts, ans, ovs):
                 exp = expected(abss, con, impl, pkgs, bad, t, slots)
-                out, cfg, _ = cfgrun.real_load(real, "\n".join(t) + "\n", cfgstream.URL)
-                fresh, _, _ = cfgrun.real_load(F.load_real(sd), "\n".join(t) + "\n", cfgstream.URL)
+                out, cfg, _ = cfgrun.real_load(real, "\n".join(t) + "\n", cfgstream.URL, ov, reuse=False)
+                fresh, _, _ = cfgrun.real_load(F.load_real(sd), "\n".join(t) + "\n", cfgstream.URL, ov, reuse=False)
+                if ov:
+                    ctx.count("with-override")
                 ctx.evaluations += 1
                 ctx.count("expected:" + exp)
                 if any(l.startswith("<") for l in t):
@@ -194,7 +199,7 @@ def run(ctx):
                 got = "ok" if out[0] == "ok" else "reject" if out[0] == "cfg" else out[0]
                 gotf = "ok" if fresh[0] == "ok" else "reject" if fresh[0] == "cfg" else fresh[0]
                 rep = {"schema_xml": F.render_xml(sd), "lines": t, "packages": {e[0]: [F.render_xml(F.SchemaD([], e[1]), "component"), list(e[2])] for e in pkgs},
-                       "history": list(history), "expected": exp, "reused_schema": out[:2], "fresh_schema": fresh[:2]}
+                       "history": list(history), "overrides": list(ov), "expected": exp, "reused_schema": out[:2], "fresh_schema": fresh[:2]}
                 if a is not None:
                     m = cfgrun.canon_model(a)
                     mm = "ok" if m[0] == "ok" else "reject" if m[0] == "cfg" else m[0]
